@@ -36,56 +36,68 @@ V2_EXCEPTIONS = {
 }
 
 
+def _compatible_cases(decl_eff, guard):
+    """declaration cases (payloads after splitting conditional bounds) whose guard can hold together with `guard`"""
+    from sa import boolnf as B
+    out = [pl for g, pl in decl_eff.get("_cases", []) if B.satisfiable(B.mk_and([g, guard]))]
+    return out or [decl_eff]
+
+
 def helper_preconditions(prog: Program, rep, RID: str, cname: str):
+    """V2, decided per case: conditional bounds / kinds (`ub = 1 if m == 1 else m`) are split, and a helper call is compared with
+    the declaration case(s) that can hold under the helper's own guard."""
     cls = prog.cls(cname)
     decl = family_decl(prog, cls)
     n = 0
     for f in cls.methods.values():
-        for e in method_effects(prog, cls, f):
-            k = e["kind"]
+        for e0 in method_effects(prog, cls, f):
+            k = e0["kind"]
             if k not in ("add_binary_continuous_product_constraint", "add_integer_continuous_product_constraint"):
                 continue
             n += 1
-            fac = e.get("binary_var") or e.get("integer_var") or ""
-            fam = fac.split("[")[0]
-            prod = (e.get("product_var") or "").split("[")[0]
-            key = f"{cname}.{f.name}:{k.replace('_constraint', '').replace('add_', '')}:{prod}"
-            loc = f"{f.module.relpath}:{e['_line']}"
-            d = decl.get(fam)
-            if d is None:
-                raise AnalysisError(f"{key}: factor family `{fam}` has no declaration in {cname}")
-            # kind of helper vs declared range of the discrete factor
-            if k.startswith("add_binary") and d.get("ub") != "1":
-                rep.violation(RID, key + ":kind", f"binary*continuous helper used although `{fam}` is declared with ub = {d.get('ub')} (not 1): "
-                              "the McCormick rows are exact only for a 0/1 factor; multiplicities > 1 are cut off or mis-multiplied", loc)
-            elif d.get("var_type") != "'integer'" and not _int_by_validation(prog, cls, d.get("var_type"), e):
-                rep.violation(RID, key + ":kind", f"discrete factor `{fam}` is declared {d.get('var_type')}", loc)
-            else:
-                rep.ok(RID, key + ":kind", f"{'binary' if k.startswith('add_binary') else 'integer'} helper matches declared range of {fam} (ub {str(d.get('ub'))[:40]})", loc)
-            # bounds of the continuous factor
-            cont = e.get("continuous_var", "")
-            alts = [a.strip() for a in re.split(r" if .* else ", cont)] if " if " in cont else [cont]
-            for a in alts:
-                cf = a.split("[")[0]
-                cd = decl.get(cf)
-                if cd is None:
-                    raise AnalysisError(f"{key}: continuous factor family `{cf}` has no declaration")
-                hub, dub = e.get("ub"), cd.get("ub")
-                hlb, dlb = e.get("lb"), cd.get("lb")
-                exc = V2_EXCEPTIONS.get((cname, prod))
-                okub = hub == dub or (isinstance(hub, str) and hub.startswith("max(") and str(dub) in hub)
-                if not okub and exc and "scaled" in cf:
-                    rep.ok(RID, key + f":ub:{cf}", "tabled exception: " + exc, loc, nontrivial=False)
-                elif okub:
-                    rep.ok(RID, key + f":ub:{cf}", f"helper ub `{hub}` = declared ub of {cf}", loc,
-                           sample={"helper": k, "factor": cf, "ub": hub})
-                else:
-                    rep.violation(RID, key + f":ub:{cf}", f"helper is told ub = `{hub}` but `{cf}` is declared with ub = `{dub}`: values of the "
-                                  "continuous factor between the two are linearised wrongly (product cut off or unbounded)", loc)
-                if hlb == dlb or (hlb == "0" and dlb in ("0", "min(self.path_length_factors)")):
-                    rep.ok(RID, key + f":lb:{cf}", f"helper lb `{hlb}` vs declared lb `{dlb}`", loc, nontrivial=False)
-                else:
-                    rep.violation(RID, key + f":lb:{cf}", f"helper is told lb = `{hlb}` but `{cf}` is declared with lb = `{dlb}`", loc)
+            for guard, e in (e0.get("_cases") or [(e0["_guard"], e0)]):
+                fac = e.get("binary_var") or e.get("integer_var") or ""
+                fam = fac.split("[")[0]
+                prod = (e.get("product_var") or "").split("[")[0]
+                key = f"{cname}.{f.name}:{k.replace('_constraint', '').replace('add_', '')}:{prod}"
+                loc = f"{e0.get('_file') or f.module.relpath}:{e0['_line']}"
+                d0 = decl.get(fam)
+                if d0 is None:
+                    raise AnalysisError(f"{key}: factor family `{fam}` has no declaration in {cname}")
+                for d in _compatible_cases(d0, guard):
+                    # kind of helper vs declared range of the discrete factor
+                    if k.startswith("add_binary") and d.get("ub") != "1":
+                        rep.violation(RID, key + ":kind", f"binary*continuous helper used although `{fam}` is declared with ub = {d.get('ub')} (not 1): "
+                                      "the McCormick rows are exact only for a 0/1 factor; multiplicities > 1 are cut off or mis-multiplied", loc)
+                    elif d.get("var_type") != "'integer'" and not _int_by_validation(prog, cls, d0.get("var_type"), e0):
+                        rep.violation(RID, key + ":kind", f"discrete factor `{fam}` is declared {d.get('var_type')}", loc)
+                    else:
+                        rep.ok(RID, key + ":kind", f"{'binary' if k.startswith('add_binary') else 'integer'} helper matches declared range of {fam} (ub {str(d.get('ub'))[:40]})", loc)
+                # bounds of the continuous factor
+                cont = e.get("continuous_var", "")
+                alts = [a.strip() for a in re.split(r" if .* else ", cont)] if " if " in cont else [cont]
+                for a in alts:
+                    cf = a.split("[")[0]
+                    cd0 = decl.get(cf)
+                    if cd0 is None:
+                        raise AnalysisError(f"{key}: continuous factor family `{cf}` has no declaration")
+                    for cd in _compatible_cases(cd0, guard):
+                        hub, dub = e.get("ub"), cd.get("ub")
+                        hlb, dlb = e.get("lb"), cd.get("lb")
+                        exc = V2_EXCEPTIONS.get((cname, prod))
+                        okub = hub == dub or (isinstance(hub, str) and hub.startswith("max(") and str(dub) in hub)
+                        if not okub and exc and "scaled" in cf:
+                            rep.ok(RID, key + f":ub:{cf}", "tabled exception: " + exc, loc, nontrivial=False)
+                        elif okub:
+                            rep.ok(RID, key + f":ub:{cf}", f"helper ub `{hub}` = declared ub of {cf}", loc,
+                                   sample={"helper": k, "factor": cf, "ub": hub})
+                        else:
+                            rep.violation(RID, key + f":ub:{cf}", f"helper is told ub = `{hub}` but `{cf}` is declared with ub = `{dub}`: values of the "
+                                          "continuous factor between the two are linearised wrongly (product cut off or unbounded)", loc)
+                        if hlb == dlb or (hlb == "0" and dlb in ("0", "min(self.path_length_factors)")):
+                            rep.ok(RID, key + f":lb:{cf}", f"helper lb `{hlb}` vs declared lb `{dlb}`", loc, nontrivial=False)
+                        else:
+                            rep.violation(RID, key + f":lb:{cf}", f"helper is told lb = `{hlb}` but `{cf}` is declared with lb = `{dlb}`", loc)
     return n
 
 
